@@ -113,3 +113,75 @@ def gen_value_pred(rng, world_params, ncells_hint=64):
 def gen_position_pred(rng, ndim):
     c = rng.choice("xyz"[:ndim])
     return {"var": "position_" + c, "op": rng.choice(["gt", "lt", "ge", "le"]), "frac": round(rng.uniform(0.02, 0.98), 6) + 1.37e-7}
+
+
+# ---- interval predicates on one axis: {"var": "position_x", "lo": frac|None, "hi": frac|None, "lo_closed": bool, "hi_closed": bool}
+
+
+def interval_func(spec, world):
+    import osyris
+
+    scale = world.boxlen * code_factor("length", world.unit_d, world.unit_l, world.unit_t)
+    u = osyris.units("cm")
+    lo = None if spec["lo"] is None else spec["lo"] * scale * u
+    hi = None if spec["hi"] is None else spec["hi"] * scale * u
+
+    def f(x):
+        m = None
+        if lo is not None:
+            m = (x >= lo) if spec["lo_closed"] else (x > lo)
+        if hi is not None:
+            h = (x <= hi) if spec["hi_closed"] else (x < hi)
+            m = h if m is None else (m & h)
+        return m
+
+    return f
+
+
+def interval_accepts(spec, world, cell):
+    d = "xyz".index(spec["var"][-1])
+    x = cell["pos"][d] / world.boxlen
+    ok = True
+    if spec["lo"] is not None:
+        ok = ok and (x >= spec["lo"] if spec["lo_closed"] else x > spec["lo"])
+    if spec["hi"] is not None:
+        ok = ok and (x <= spec["hi"] if spec["hi_closed"] else x < spec["hi"])
+    return ok
+
+
+def gen_interval(rng, axis, levelmax, kind=None):
+    """An interval containing at least one finest-level centre; widths from a fraction of the finest cell to the box."""
+    n = 2 ** levelmax
+    i0 = rng.randrange(n)
+    c = (i0 + 0.5) / n
+    fine = 1.0 / n
+    kind = kind or rng.choice(["tiny", "leaf", "few", "wide", "half-open", "edge"])
+    j = lambda: 1.37e-7 * rng.random()
+    if kind == "tiny":
+        lo, hi = c - fine * rng.uniform(0.05, 0.45), c + fine * rng.uniform(0.05, 0.45)
+    elif kind == "leaf":
+        w = fine * 2 ** rng.randrange(0, levelmax + 1) * rng.uniform(0.3, 1.2)
+        a = rng.random()
+        lo, hi = c - a * w, c + (1 - a) * w
+    elif kind == "few":
+        lo, hi = c - fine * rng.uniform(0.5, 4), c + fine * rng.uniform(0.5, 4)
+    elif kind == "wide":
+        lo, hi = c - rng.uniform(0.05, 0.6), c + rng.uniform(0.05, 0.6)
+    elif kind == "half-open":
+        if rng.random() < 0.5:
+            lo, hi = None, c + rng.uniform(0.0, 0.5) * rng.choice([fine, 1.0])
+        else:
+            lo, hi = c - rng.uniform(0.0, 0.5) * rng.choice([fine, 1.0]), None
+    else:
+        # touching the domain edges
+        if rng.random() < 0.5:
+            lo, hi = 0.0, max(c, fine * 0.5) + fine * rng.uniform(0.0, 2.0)
+        else:
+            lo, hi = min(c, 1 - fine * 0.5) - fine * rng.uniform(0.0, 2.0), 1.0
+    if lo is not None:
+        lo = float(lo) + (j() if lo not in (0.0,) else 0.0)
+        lo = min(lo, c - 1e-9) if lo > c else lo
+    if hi is not None:
+        hi = float(hi) - (j() if hi not in (1.0,) else 0.0)
+        hi = max(hi, c + 1e-9) if hi < c else hi
+    return {"var": "position_" + axis, "lo": lo, "hi": hi, "lo_closed": rng.random() < 0.5, "hi_closed": rng.random() < 0.5}
